@@ -101,6 +101,18 @@ contract(
             invariants={"done": f"all(implies(glyphName in {_GSS}[a].keyset, len({_GSS}[a][glyphName].components) == 0) for a in range(k))"},
         )
     },
+    # heap of the components before the decomposing call (ghost) + the pointwise consequence of the callee's whole-heap frame for
+    # the same-named glyphs of the other masters (hint: proved, then used by inv.step.done)
+    ghost_vars={"HC": (Map(Ref("SXGlyph"), List(Ref("SXComponent"))), "self.heap_components")},
+    ghost={"glyph = glyphSet.get(glyphName)": ["HC = self.heap_components"]},
+    hints={
+        "decomposeCompositeGlyph(glyph, interpolatedLayer or glyphSet)": [
+            f"all(implies(glyphName in gs.keyset and gs[glyphName] != glyph, self.heap_components[gs[glyphName]] == HC[gs[glyphName]]) for gs in {_GSS})"
+        ]
+    },
+    # the two paths of `if glyph is not None:` are kept apart: the ite-merge puts the callee's quantified ensures into the
+    # condition of the merged heap, which made inv.step.done slow (6 s, third solver configuration)
+    merge_branches=False,
 )
 
 # composition of the two result cases (same shape as C13.joint): every master's glyph ends up without components
